@@ -13,27 +13,372 @@ use aldrin_core::{
 use futures_channel::mpsc::{unbounded, UnboundedSender};
 
 pub(crate) const NCONN: usize = 3;
-pub(crate) const LOG_CAP: usize = 8;
+pub(crate) const LOG_CAP: usize = 6;
 
+/// Kind of a logged broker -> client message.
+#[derive(Clone, Copy, PartialEq, Eq, Debug)]
+pub(crate) enum K {
+    CreateObjectReply,
+    DestroyObjectReply,
+    CreateServiceReply,
+    DestroyServiceReply,
+    CallFunction,
+    CallFunction2,
+    CallFunctionReply,
+    AbortFunctionCall,
+    SubscribeEvent,
+    SubscribeEventReply,
+    UnsubscribeEvent,
+    EmitEvent,
+    QueryServiceVersionReply,
+    QueryServiceInfoReply,
+    CreateChannelReply,
+    CloseChannelEndReply,
+    ChannelEndClosed,
+    ClaimChannelEndReply,
+    ChannelEndClaimed,
+    ItemReceived,
+    AddChannelCapacity,
+    SyncReply,
+    ServiceDestroyed,
+    CreateBusListenerReply,
+    DestroyBusListenerReply,
+    StartBusListenerReply,
+    StopBusListenerReply,
+    EmitBusEvent,
+    BusListenerCurrentFinished,
+    Shutdown,
+    SubscribeServiceReply,
+    SubscribeAllEvents,
+    SubscribeAllEventsReply,
+    UnsubscribeAllEvents,
+    UnsubscribeAllEventsReply,
+    QueryIntrospectionReply,
+    Other,
+}
+
+/// Compact digest of one logged message (the messages themselves - big enums with `BytesMut`
+/// payloads - made every log access a large formula; the digest keeps the fields the lemmas talk
+/// about). Cookies/uuids are represented by their last byte (the pools vary only there).
+#[derive(Clone, Copy, PartialEq, Eq, Debug)]
 pub(crate) struct LogEntry {
     /// tag of the connection the message was sent to
     pub to: u8,
-    pub msg: Message,
-    /// protocol version the payload is encoded in (None = broker's own / no payload)
-    pub version: Option<ProtocolVersion>,
+    pub kind: K,
+    /// request serial echoed / broker serial (0 if the kind has none); `has_serial` for Option serials
+    pub serial: u32,
+    pub has_serial: bool,
+    /// the cookie the message is about (object / service / channel / listener), last byte
+    pub cookie: u8,
+    /// second id: object uuid byte of bus events, service uuid byte in `aux2`
+    pub aux: u32,
+    pub aux2: u32,
+    /// result / end / event-kind code, see `digest`
+    pub code: u8,
+    /// payload: length and first two bytes (0 if none)
+    pub vlen: u8,
+    pub v0: u8,
+    pub v1: u8,
+    /// minor protocol version the payload is tagged with (0 = untagged)
+    pub vminor: u8,
 }
 
-const NO_ENTRY: Option<LogEntry> = None;
+const EMPTY: LogEntry = LogEntry {
+    to: 0xff,
+    kind: K::Other,
+    serial: 0,
+    has_serial: false,
+    cookie: 0,
+    aux: 0,
+    aux2: 0,
+    code: 0,
+    vlen: 0,
+    v0: 0,
+    v1: 0,
+    vminor: 0,
+};
+
 const NO_SENDER: Option<UnboundedSender<VersionedMessage>> = None;
 
-static mut LOG: [Option<LogEntry>; LOG_CAP] = [NO_ENTRY; LOG_CAP];
+static mut LOG: [LogEntry; LOG_CAP] = [EMPTY; LOG_CAP];
 static mut LOG_LEN: usize = 0;
 static mut SENDERS: [Option<UnboundedSender<VersionedMessage>>; NCONN] = [NO_SENDER; NCONN];
 /// connection `i`'s peer is gone: sending to it fails (nothing is logged)
 static mut SEND_FAILS: [bool; NCONN] = [false; NCONN];
 
-/// Replacement of `UnboundedSender::unbounded_send` inside `ConnectionState::send`: the message is
-/// appended to the log in call order, or the send fails if the harness marked the peer as gone.
+fn payload(e: &mut LogEntry, v: &aldrin_core::SerializedValue) {
+    let b: &[u8] = v;
+    e.vlen = b.len() as u8;
+    if b.len() >= 1 {
+        e.v0 = b[0];
+    }
+    if b.len() >= 2 {
+        e.v1 = b[1];
+    }
+}
+
+fn end_code(end: aldrin_core::ChannelEnd) -> u8 {
+    match end {
+        aldrin_core::ChannelEnd::Sender => 0,
+        aldrin_core::ChannelEnd::Receiver => 1,
+    }
+}
+
+/// result codes: the variant index of the result enum (Ok = 0, then in declaration order)
+fn digest(to: u8, msg: &Message, version: Option<ProtocolVersion>) -> LogEntry {
+    use aldrin_core::message::*;
+    let mut e = EMPTY;
+    e.to = to;
+    e.vminor = version.map(|v| v.minor() as u8).unwrap_or(0);
+    match msg {
+        Message::CreateObjectReply(m) => {
+            e.kind = K::CreateObjectReply;
+            e.serial = m.serial;
+            match m.result {
+                CreateObjectResult::Ok(c) => e.cookie = last_byte(c),
+                CreateObjectResult::DuplicateObject => e.code = 1,
+            }
+        }
+        Message::DestroyObjectReply(m) => {
+            e.kind = K::DestroyObjectReply;
+            e.serial = m.serial;
+            e.code = m.result as u8;
+        }
+        Message::CreateServiceReply(m) => {
+            e.kind = K::CreateServiceReply;
+            e.serial = m.serial;
+            match m.result {
+                CreateServiceResult::Ok(c) => e.cookie = last_byte(c),
+                CreateServiceResult::DuplicateService => e.code = 1,
+                CreateServiceResult::InvalidObject => e.code = 2,
+                CreateServiceResult::ForeignObject => e.code = 3,
+            }
+        }
+        Message::DestroyServiceReply(m) => {
+            e.kind = K::DestroyServiceReply;
+            e.serial = m.serial;
+            e.code = m.result as u8;
+        }
+        Message::CallFunction(m) => {
+            e.kind = K::CallFunction;
+            e.serial = m.serial;
+            e.cookie = last_byte(m.service_cookie);
+            e.aux = m.function;
+            payload(&mut e, &m.value);
+        }
+        Message::CallFunction2(m) => {
+            e.kind = K::CallFunction2;
+            e.serial = m.serial;
+            e.cookie = last_byte(m.service_cookie);
+            e.aux = m.function;
+            e.has_serial = m.version.is_some();
+            e.aux2 = m.version.unwrap_or(0);
+            payload(&mut e, &m.value);
+        }
+        Message::CallFunctionReply(m) => {
+            e.kind = K::CallFunctionReply;
+            e.serial = m.serial;
+            match &m.result {
+                CallFunctionResult::Ok(v) => payload(&mut e, v),
+                CallFunctionResult::Err(v) => {
+                    e.code = 1;
+                    payload(&mut e, v);
+                }
+                CallFunctionResult::Aborted => e.code = 2,
+                CallFunctionResult::InvalidService => e.code = 3,
+                CallFunctionResult::InvalidFunction => e.code = 4,
+                CallFunctionResult::InvalidArgs => e.code = 5,
+            }
+        }
+        Message::AbortFunctionCall(m) => {
+            e.kind = K::AbortFunctionCall;
+            e.serial = m.serial;
+        }
+        Message::SubscribeEvent(m) => {
+            e.kind = K::SubscribeEvent;
+            e.has_serial = m.serial.is_some();
+            e.serial = m.serial.unwrap_or(0);
+            e.cookie = last_byte(m.service_cookie);
+            e.aux = m.event;
+        }
+        Message::SubscribeEventReply(m) => {
+            e.kind = K::SubscribeEventReply;
+            e.serial = m.serial;
+            e.code = m.result as u8;
+        }
+        Message::UnsubscribeEvent(m) => {
+            e.kind = K::UnsubscribeEvent;
+            e.cookie = last_byte(m.service_cookie);
+            e.aux = m.event;
+        }
+        Message::EmitEvent(m) => {
+            e.kind = K::EmitEvent;
+            e.cookie = last_byte(m.service_cookie);
+            e.aux = m.event;
+            payload(&mut e, &m.value);
+        }
+        Message::QueryServiceVersionReply(m) => {
+            e.kind = K::QueryServiceVersionReply;
+            e.serial = m.serial;
+            match m.result {
+                QueryServiceVersionResult::Ok(v) => e.aux = v,
+                QueryServiceVersionResult::InvalidService => e.code = 1,
+            }
+        }
+        Message::QueryServiceInfoReply(m) => {
+            e.kind = K::QueryServiceInfoReply;
+            e.serial = m.serial;
+            match &m.result {
+                QueryServiceInfoResult::Ok(v) => payload(&mut e, v),
+                QueryServiceInfoResult::InvalidService => e.code = 1,
+            }
+        }
+        Message::CreateChannelReply(m) => {
+            e.kind = K::CreateChannelReply;
+            e.serial = m.serial;
+            e.cookie = last_byte(m.cookie);
+        }
+        Message::CloseChannelEndReply(m) => {
+            e.kind = K::CloseChannelEndReply;
+            e.serial = m.serial;
+            e.code = m.result as u8;
+        }
+        Message::ChannelEndClosed(m) => {
+            e.kind = K::ChannelEndClosed;
+            e.cookie = last_byte(m.cookie);
+            e.code = end_code(m.end);
+        }
+        Message::ClaimChannelEndReply(m) => {
+            e.kind = K::ClaimChannelEndReply;
+            e.serial = m.serial;
+            match m.result {
+                ClaimChannelEndResult::SenderClaimed(c) => e.aux = c,
+                ClaimChannelEndResult::ReceiverClaimed => e.code = 1,
+                ClaimChannelEndResult::InvalidChannel => e.code = 2,
+                ClaimChannelEndResult::AlreadyClaimed => e.code = 3,
+            }
+        }
+        Message::ChannelEndClaimed(m) => {
+            e.kind = K::ChannelEndClaimed;
+            e.cookie = last_byte(m.cookie);
+            match m.end {
+                aldrin_core::ChannelEndWithCapacity::Sender => e.code = 0,
+                aldrin_core::ChannelEndWithCapacity::Receiver(c) => {
+                    e.code = 1;
+                    e.aux = c;
+                }
+            }
+        }
+        Message::ItemReceived(m) => {
+            e.kind = K::ItemReceived;
+            e.cookie = last_byte(m.cookie);
+            payload(&mut e, &m.value);
+        }
+        Message::AddChannelCapacity(m) => {
+            e.kind = K::AddChannelCapacity;
+            e.cookie = last_byte(m.cookie);
+            e.aux = m.capacity;
+        }
+        Message::SyncReply(m) => {
+            e.kind = K::SyncReply;
+            e.serial = m.serial;
+        }
+        Message::ServiceDestroyed(m) => {
+            e.kind = K::ServiceDestroyed;
+            e.cookie = last_byte(m.service_cookie);
+        }
+        Message::CreateBusListenerReply(m) => {
+            e.kind = K::CreateBusListenerReply;
+            e.serial = m.serial;
+            e.cookie = last_byte(m.cookie);
+        }
+        Message::DestroyBusListenerReply(m) => {
+            e.kind = K::DestroyBusListenerReply;
+            e.serial = m.serial;
+            e.code = m.result as u8;
+        }
+        Message::StartBusListenerReply(m) => {
+            e.kind = K::StartBusListenerReply;
+            e.serial = m.serial;
+            e.code = m.result as u8;
+        }
+        Message::StopBusListenerReply(m) => {
+            e.kind = K::StopBusListenerReply;
+            e.serial = m.serial;
+            e.code = m.result as u8;
+        }
+        Message::EmitBusEvent(m) => {
+            e.kind = K::EmitBusEvent;
+            e.has_serial = m.cookie.is_some();
+            e.cookie = m.cookie.map(last_byte).unwrap_or(0);
+            // code: 0 object created, 1 object destroyed, 2 service created, 3 service destroyed;
+            // aux: object uuid byte << 8 | object cookie byte; aux2: service uuid byte << 8 | service cookie byte
+            match m.event {
+                aldrin_core::BusEvent::ObjectCreated(o) => {
+                    e.code = 0;
+                    e.aux = ((last_byte(o.uuid) as u32) << 8) | last_byte(o.cookie) as u32;
+                }
+                aldrin_core::BusEvent::ObjectDestroyed(o) => {
+                    e.code = 1;
+                    e.aux = ((last_byte(o.uuid) as u32) << 8) | last_byte(o.cookie) as u32;
+                }
+                aldrin_core::BusEvent::ServiceCreated(s) => {
+                    e.code = 2;
+                    e.aux = ((last_byte(s.object_id.uuid) as u32) << 8) | last_byte(s.object_id.cookie) as u32;
+                    e.aux2 = ((last_byte(s.uuid) as u32) << 8) | last_byte(s.cookie) as u32;
+                }
+                aldrin_core::BusEvent::ServiceDestroyed(s) => {
+                    e.code = 3;
+                    e.aux = ((last_byte(s.object_id.uuid) as u32) << 8) | last_byte(s.object_id.cookie) as u32;
+                    e.aux2 = ((last_byte(s.uuid) as u32) << 8) | last_byte(s.cookie) as u32;
+                }
+            }
+        }
+        Message::BusListenerCurrentFinished(m) => {
+            e.kind = K::BusListenerCurrentFinished;
+            e.cookie = last_byte(m.cookie);
+        }
+        Message::Shutdown(_) => e.kind = K::Shutdown,
+        Message::SubscribeServiceReply(m) => {
+            e.kind = K::SubscribeServiceReply;
+            e.serial = m.serial;
+            e.code = m.result as u8;
+        }
+        Message::SubscribeAllEvents(m) => {
+            e.kind = K::SubscribeAllEvents;
+            e.has_serial = m.serial.is_some();
+            e.serial = m.serial.unwrap_or(0);
+            e.cookie = last_byte(m.service_cookie);
+        }
+        Message::SubscribeAllEventsReply(m) => {
+            e.kind = K::SubscribeAllEventsReply;
+            e.serial = m.serial;
+            e.code = m.result as u8;
+        }
+        Message::UnsubscribeAllEvents(m) => {
+            e.kind = K::UnsubscribeAllEvents;
+            e.has_serial = m.serial.is_some();
+            e.serial = m.serial.unwrap_or(0);
+            e.cookie = last_byte(m.service_cookie);
+        }
+        Message::UnsubscribeAllEventsReply(m) => {
+            e.kind = K::UnsubscribeAllEventsReply;
+            e.serial = m.serial;
+            e.code = m.result as u8;
+        }
+        Message::QueryIntrospectionReply(m) => {
+            e.kind = K::QueryIntrospectionReply;
+            e.serial = m.serial;
+            e.code = matches!(m.result, QueryIntrospectionResult::Unavailable) as u8;
+        }
+        _ => e.kind = K::Other,
+    }
+    e
+}
+
+/// Replacement of `UnboundedSender::unbounded_send` inside `ConnectionState::send`: a digest of
+/// the message is appended to the log in call order, or the send fails if the harness marked the
+/// peer as gone.
 pub(crate) fn log_send(sender: &UnboundedSender<VersionedMessage>, msg: VersionedMessage) -> Result<(), ()> {
     unsafe {
         let mut tag = NCONN;
@@ -47,16 +392,27 @@ pub(crate) fn log_send(sender: &UnboundedSender<VersionedMessage>, msg: Versione
             i += 1;
         }
         assert!(tag < NCONN, "send on a connection the harness does not know");
-        if SEND_FAILS[tag] {
+        let fails = match tag {
+            0 => SEND_FAILS[0],
+            1 => SEND_FAILS[1],
+            _ => SEND_FAILS[2],
+        };
+        if fails {
             std::mem::forget(msg);
             return Err(());
         }
         assert!(LOG_LEN < LOG_CAP, "send log overflow: more messages than any lemma expects");
-        LOG[LOG_LEN] = Some(LogEntry {
-            to: tag as u8,
-            msg: msg.msg,
-            version: msg.version,
-        });
+        let e = digest(tag as u8, &msg.msg, msg.version);
+        std::mem::forget(msg);
+        // case split instead of a symbolic array index
+        match LOG_LEN {
+            0 => LOG[0] = e,
+            1 => LOG[1] = e,
+            2 => LOG[2] = e,
+            3 => LOG[3] = e,
+            4 => LOG[4] = e,
+            _ => LOG[5] = e,
+        }
         LOG_LEN += 1;
         Ok(())
     }
@@ -66,16 +422,29 @@ pub(crate) fn log_len() -> usize {
     unsafe { LOG_LEN }
 }
 
-pub(crate) fn log(i: usize) -> &'static LogEntry {
-    unsafe { LOG[i].as_ref().unwrap() }
+pub(crate) fn log(i: usize) -> LogEntry {
+    unsafe {
+        match i {
+            0 => LOG[0],
+            1 => LOG[1],
+            2 => LOG[2],
+            3 => LOG[3],
+            4 => LOG[4],
+            _ => LOG[5],
+        }
+    }
 }
 
 /// number of logged messages addressed to connection `to`
 pub(crate) fn log_count_to(to: u8) -> usize {
+    count_where(|e| e.to == to)
+}
+
+pub(crate) fn count_where(pred: impl Fn(&LogEntry) -> bool) -> usize {
     let mut n = 0;
     let mut i = 0;
     while i < LOG_CAP {
-        if i < log_len() && log(i).to == to {
+        if i < log_len() && pred(&log(i)) {
             n += 1;
         }
         i += 1;
@@ -83,14 +452,36 @@ pub(crate) fn log_count_to(to: u8) -> usize {
     n
 }
 
+/// the first logged entry satisfying `pred`
+pub(crate) fn find_where(pred: impl Fn(&LogEntry) -> bool) -> Option<LogEntry> {
+    let mut i = 0;
+    while i < LOG_CAP {
+        if i < log_len() && pred(&log(i)) {
+            return Some(log(i));
+        }
+        i += 1;
+    }
+    None
+}
+
 pub(crate) fn set_send_fails(tag: u8, fails: bool) {
     unsafe {
-        SEND_FAILS[tag as usize] = fails;
+        match tag {
+            0 => SEND_FAILS[0] = fails,
+            1 => SEND_FAILS[1] = fails,
+            _ => SEND_FAILS[2] = fails,
+        }
     }
 }
 
 pub(crate) fn send_fails(tag: u8) -> bool {
-    unsafe { SEND_FAILS[tag as usize] }
+    unsafe {
+        match tag {
+            0 => SEND_FAILS[0],
+            1 => SEND_FAILS[1],
+            _ => SEND_FAILS[2],
+        }
+    }
 }
 
 /// A fresh sender for connection `tag`, registered with the log.
@@ -98,7 +489,11 @@ pub(crate) fn new_sender(tag: u8) -> UnboundedSender<VersionedMessage> {
     let (tx, rx) = unbounded();
     std::mem::forget(rx);
     unsafe {
-        SENDERS[tag as usize] = Some(tx.clone());
+        match tag {
+            0 => SENDERS[0] = Some(tx.clone()),
+            1 => SENDERS[1] = Some(tx.clone()),
+            _ => SENDERS[2] = Some(tx.clone()),
+        }
     }
     tx
 }
